@@ -17,11 +17,26 @@ class Boom(Exception):
 def process_containment(run, twin=None):
     """process(name, args, kwargs): the named method is an opaque call that returns a value or raises any Exception (unknown name ->
     AttributeError, wrong arguments -> TypeError, failing request -> anything): process never raises; (value, True) iff the method
-    returned value, otherwise ((exception class name, str(exception)), False); the server object is not modified"""
+    returned value, otherwise ((exception class name, str(exception)), False); the server object is not modified; an attribute of the server
+    that is no request (run, process, conn, dunder methods) is reported like an unknown method and never called"""
     import supp.server as Sv
     f = loader.load(MOD, 'Server.process', stubs={'logger': type('L', (), {'exception': staticmethod(lambda *a, **k: None)})})
 
-    class Srv(object):
+    called = []
+
+    class Srv(Sv.Server):
+        # the real class with four more requests (whatever the class uses to tell requests from its other attributes is inherited)
+        requests = tuple(getattr(Sv.Server, 'requests', ())) + ('ok', 'bad', 'keyerr', 'mute')
+
+        def __init__(self):
+            pass
+
+        def run(self):
+            called.append('run')
+
+        def helper(self):
+            called.append('helper')
+
         def ok(self, a, k=None):
             return ('value', a, k)
 
@@ -42,6 +57,9 @@ def process_containment(run, twin=None):
              ('bad', (1,), {}, (('Boom', 'request failed: 1'), False)),
              ('keyerr', (), {}, (('KeyError', "'k'"), False)),
              ('nosuchmethod', (), {}, (('AttributeError', None), False)),
+             # attributes of the server that are no requests: reported like an unknown method, never called
+             ('run', (), {}, ((None, None), False)), ('process', ('ok', (1,), {}), {}, ((None, None), False)), ('helper', (), {}, ((None, None), False)),
+             ('conn', (), {}, ((None, None), False)), ('__init__', (), {}, ((None, None), False)), ('__class__', (), {}, ((None, None), False)),
              ('ok', (), {}, (('TypeError', None), False)),
              ('ok', (1, 2, 3), {}, (('TypeError', None), False)),
              ('ok', (1,), {'zz': 1}, (('TypeError', None), False))]
@@ -66,8 +84,10 @@ def process_containment(run, twin=None):
             if want[1]:
                 ok = ok and got[0] == want[0]
             else:
-                ok = ok and got[0][0] == want[0][0] and (want[0][1] is None or got[0][1] == want[0][1]) and isinstance(got[0][1], str)
-            prove('reports-value-or-class-and-message', bool(ok), clause='(value, True) | ((class name, message), False)', path=path)
+                ok = ok and (want[0][0] is None or got[0][0] == want[0][0]) and (want[0][1] is None or got[0][1] == want[0][1]) and isinstance(got[0][1], str)
+            prove('reports-value-or-class-and-message', bool(ok), clause='(value, True) | ((class name, message), False) [%r]' % (got,), path=path)
+            prove('only-requests-are-called', called == [], clause='run, process and other attributes of the server are not requests: none of them is called [%r]' % (called,), path=path)
+            del called[:]
             prove('server-state-unchanged', s.__dict__ == before, path=path)
         run.case = None
     core.explore(lambda: None, lambda p, out: go(p))
@@ -307,7 +327,11 @@ REQUESTS = {
     'unserialisable-nested': ('eval', ('return [1, {"k": object()}]',), {}),
     'syntax-error-in-request': ('assist', ('def f(:\n', [1, 5], 'f.py'), {}),
     'str-of-the-exception-raises': ('eval', ('class E(Exception):\n    def __str__(self): raise RuntimeError("x")\nraise E()',), {}),
+    # attributes of the server object that are no requests
+    'attribute-run': ('run', (), {}),
+    'attribute-process': ('process', ('eval', ('return 1',), {}), {}),
 }
+API = ('configure', 'assist', 'location', 'lint', 'eval')          # the in-process API the client exposes
 
 # requests whose answer depends on the configured project ($A and $B are source roots made for the run: $A holds alpha_mod.py, $B holds beta_mod.py)
 PROJECT_REQUESTS = {
@@ -345,7 +369,14 @@ def play_sequence(seq):
             self.inbox = [dumps(r) for r in requests] + [dumps(('close', (), {}))]
             self.sent, self.closed = [], False
 
+        idle = 0
+
         def poll(self, t=None):
+            if not self.inbox:
+                # (a server that waits for requests nobody sends would wait for ever: the client is gone after a while)
+                self.idle += 1
+                if self.idle > 20:
+                    raise EOFError('no client')
             return bool(self.inbox)
 
         def recv_bytes(self):
@@ -410,6 +441,9 @@ def _play(seq, root, Sv, Wire, dumps, loads):
     ref = fresh([])
     want, applied = [], []
     for name, args, kwargs in reqs:
+        if name not in API:
+            want.append(('error', None))          # no such call in the API: an error with the server's own message
+            continue
         try:
             try:
                 r = getattr(ref, name)(*args, **kwargs)
